@@ -255,6 +255,102 @@ pub fn add_config_templates(p: &mut Plan, q: bool) {
     p.bounds.push(format!("S2a: mutants (256 values × every position) of {} default templates × 128 configs when default-Complete; of {} head templates × other-kind option subsets", def.len(), ts.len()));
 }
 
+
+/// C15 beyond the trees and templates: default-accepted inputs with long whitespace runs, long
+/// runs of spaces in front of every possible first reason byte, and long fields — each under all
+/// 128 configurations (the comparison runs only on inputs the default configuration completes).
+pub fn add_config_sweeps(p: &mut Plan, q: bool) {
+    let mut tasks: Vec<TaskFn> = Vec::new();
+    let counts: Vec<usize> = (0..=40usize).chain([47, 63, 64, 65, 66, 100, 127, 128, 129, 130, 255, 256, 257, 258, 259, 300]).collect();
+    // (a) SP^n X "eason" after the status code, every X; SP / HTAB runs around header values
+    {
+        let counts = counts.clone();
+        tasks.push(Box::new(move |ck: &mut Checker| {
+            let mut spec = TreeSpec { lane: Lane::new(Entry::RespCfg, 0, 4), ctx: Vec::new(), alphabet: vec![], depth: 0, extra: 0, companions: Companions::AllConfigs };
+            for &n in &counts {
+                for x in 0..=255u8 {
+                    for tail in [&b"eason text\r\nA: b\r\n\r\n"[..], b"\r\n\r\n", b"x\n\n"] {
+                        spec.ctx.clear();
+                        spec.ctx.extend_from_slice(b"HTTP/1.1 200");
+                        spec.ctx.extend(std::iter::repeat(b' ').take(n));
+                        spec.ctx.push(x);
+                        spec.ctx.extend_from_slice(tail);
+                        run_tree(ck, &spec, None);
+                        if ck.full() {
+                            return;
+                        }
+                    }
+                }
+            }
+        }));
+    }
+    for (e, pre, post) in [
+        (Entry::ReqCfg, &b"GET / HTTP/1.1\r\nConnection:"[..], &b"close\r\n\r\n"[..]),
+        (Entry::ReqCfg, b"GET / HTTP/1.1\r\nConnection: close", b"\r\nB: 1\r\n\r\n"),
+        (Entry::RespCfg, b"HTTP/1.1 200 OK\r\nA:", b"\r\n\r\n"),
+        (Entry::RespCfg, b"HTTP/1.1 200 OK\r\nA: x", b"y\r\nB:1\r\n\r\n"),
+        (Entry::RespCfg, b"HTTP/1.1 200 OK", b"\r\n\r\n"),
+        (Entry::RespCfg, b"HTTP/1.1 200 O", b"K\r\n\r\n"),
+        (Entry::ReqCfg, b"", b"GET / HTTP/1.1\r\n\r\n"),
+    ] {
+        let counts = counts.clone();
+        tasks.push(Box::new(move |ck: &mut Checker| {
+            let mut spec = TreeSpec { lane: Lane::new(e, 0, 4), ctx: Vec::new(), alphabet: vec![], depth: 0, extra: 0, companions: Companions::AllConfigs };
+            for &n in &counts {
+                for pat in 0..4 {
+                    spec.ctx.clear();
+                    spec.ctx.extend_from_slice(pre);
+                    for i in 0..n {
+                        spec.ctx.push(match pat {
+                            0 => b' ',
+                            1 => b'\t',
+                            2 => if i % 2 == 0 { b' ' } else { b'\t' },
+                            _ => if i == 0 { b'\t' } else { b' ' },
+                        });
+                    }
+                    spec.ctx.extend_from_slice(post);
+                    run_tree(ck, &spec, None);
+                    if ck.full() {
+                        return;
+                    }
+                }
+            }
+        }));
+    }
+    // (b) long fields of the default lanes
+    let step = if q { 9 } else { 2 };
+    for f in FIELDS.iter().filter(|f| f.cfg == 0 && (f.entry.is_req() || f.entry.is_resp())) {
+        for post in long_posts(f) {
+            let f = *f;
+            tasks.push(Box::new(move |ck: &mut Checker| {
+                let mut spec = TreeSpec { lane: Lane::new(f.entry, 0, 8), ctx: Vec::new(), alphabet: vec![], depth: 0, extra: 0, companions: Companions::AllConfigs };
+                for l in (60..=300usize).step_by(step) {
+                    for pos in 0..=l {
+                        for &v in LONG_VALS.iter() {
+                            spec.ctx.clear();
+                            spec.ctx.extend_from_slice(f.pre);
+                            spec.ctx.extend(std::iter::repeat(f.fill).take(l));
+                            spec.ctx.extend_from_slice(&post);
+                            if pos < l {
+                                spec.ctx[f.pre.len() + pos] = v;
+                            }
+                            run_tree(ck, &spec, None);
+                            if ck.full() {
+                                return;
+                            }
+                            if pos == l {
+                                break;
+                            }
+                        }
+                    }
+                }
+            }));
+        }
+    }
+    p.phases.push(Phase { label: "S2c: default-accepted whitespace runs (to 300), spaces before every first reason byte, long fields — under all 128 configs".into(), backend: Backend::Native, tasks });
+    p.bounds.push(format!("C15 sweeps: SP^n X after the status code for n in 0..=40 and {{47,63..66,100,127..130,255..259,300}} × all 256 X × 3 tails; SP/HTAB runs of those lengths (4 patterns) at 7 default-grammar positions; long fields (length 60..=300 step {step}, 13 boundary bytes at every position, 3 remainders) — every default-Complete input under the other 127 configurations"));
+}
+
 /// C16 on template mutants.
 pub fn add_entry_templates(p: &mut Plan, q: bool) {
     let ts: Vec<Template> = quick_templates(q).into_iter().filter(|t| t.kind == TKind::Request || t.kind == TKind::Response).collect();
@@ -270,6 +366,71 @@ pub fn add_entry_templates(p: &mut Plan, q: bool) {
         tasks: companion_template_tasks(&hs, Companions::Lockstep, &|_| vec![0], 3),
     });
     p.bounds.push(format!("S2a: mutants of {} head templates on all entry points of their kind, of {} header-block templates in lock-step", ts.len(), hs.len()));
+}
+
+
+/// C16 beyond the trees: header counts up to 513 (five minimal line shapes, capacities around the
+/// count) and the size families at 0.6 / 4.2 / 7.9 KB in five variants, every input on all entry
+/// points of its kind (parse_headers in lock-step with request and response heads).
+pub fn add_entry_long(p: &mut Plan, q: bool) {
+    let kmax: usize = if q { 24 } else { 72 };
+    let shapes: [&[u8]; 5] = [b"a:\n", b"a:b\n", b"a: b\r\n", b"ab:\r\n", b"a:\t \n"];
+    let mut tasks: Vec<TaskFn> = Vec::new();
+    for e in [Entry::Headers, Entry::ReqCfg, Entry::RespCfg] {
+        for shape in shapes.iter() {
+            let shape: &'static [u8] = shape;
+            tasks.push(Box::new(move |ck: &mut Checker| {
+                let start: &[u8] = if e.is_req() { b"GET / HTTP/1.1\n" } else if e.is_resp() { b"HTTP/1.1 200\n" } else { b"" };
+                let comp = if e == Entry::Headers { Companions::Lockstep } else { Companions::Entries };
+                for k in (0..=kmax).chain(HC_LONG.iter().copied()) {
+                    let mut head = start.to_vec();
+                    for _ in 0..k {
+                        head.extend_from_slice(shape);
+                    }
+                    let mut caps: Vec<u32> = vec![k as u32, k as u32 + 1, 2 * k as u32 + 4];
+                    if k > 0 {
+                        caps.push(k as u32 - 1);
+                    }
+                    for cap in caps {
+                        let mut spec = TreeSpec { lane: Lane::new(e, 0, cap), ctx: Vec::new(), alphabet: vec![], depth: 0, extra: 0, companions: comp.clone() };
+                        for tail in [&b"\n"[..], b"", b"a:", b"(\r\n\r\n"] {
+                            spec.ctx.clear();
+                            spec.ctx.extend_from_slice(&head);
+                            spec.ctx.extend_from_slice(tail);
+                            run_tree(ck, &spec, None);
+                            if ck.full() {
+                                return;
+                            }
+                        }
+                    }
+                }
+            }));
+        }
+    }
+    let nf = crate::s8::families().len();
+    for fam in 0..nf {
+        tasks.push(Box::new(move |ck: &mut Checker| {
+            let fs = crate::s8::families();
+            let f = &fs[fam];
+            if !(f.entry.is_req() || f.entry.is_resp()) {
+                return;
+            }
+            for size in [600usize, 4200, 7900] {
+                let full = (f.gen)(size);
+                for (_, input) in crate::s8::variants(&full) {
+                    for cap in [1u32, (size / 3 + 8) as u32] {
+                        let spec = TreeSpec { lane: Lane::new(f.entry, f.cfg, cap), ctx: input.clone(), alphabet: vec![], depth: 0, extra: 0, companions: Companions::Entries };
+                        run_tree(ck, &spec, None);
+                        if ck.full() {
+                            return;
+                        }
+                    }
+                }
+            }
+        }));
+    }
+    p.phases.push(Phase { label: format!("S2c/S8: header counts 0..={} and 99..513 × 5 shapes × 4 capacities × 4 tails, and {} size families × 3 sizes × 5 variants × 2 capacities, on every entry point of the kind", kmax, nf), backend: Backend::Native, tasks });
+    p.bounds.push(format!("entry-point agreement on long inputs: k = 0..={} and {{99..102,127..130,255..257,300,511,513}} minimal header lines (5 shapes, capacities k-1, k, k+1, 2k+4, 4 tails); size families at 600 / 4200 / 7900 bytes (complete, truncated, erroneous, with body; capacity 1 and enough)", kmax));
 }
 
 /// C17 on template mutants: capacity 16 against capacities 0..=4 (templates have <= 4 headers... up to k+2).
@@ -447,7 +608,7 @@ pub struct Field {
     pub fill: u8,
 }
 
-pub const FIELDS: [Field; 9] = [
+pub const FIELDS: [Field; 11] = [
     Field { name: "method", entry: Entry::ReqCfg, cfg: 0, pre: b"", post: b" / HTTP/1.1\r\n\r\n", fill: b'A' },
     Field { name: "target", entry: Entry::ReqCfg, cfg: 0, pre: b"GET ", post: b" HTTP/1.1\r\n\r\n", fill: b'/' },
     Field { name: "header-name", entry: Entry::ReqCfg, cfg: 0, pre: b"GET / HTTP/1.1\r\n", post: b": v\r\n\r\n", fill: b'n' },
@@ -457,6 +618,10 @@ pub const FIELDS: [Field; 9] = [
     Field { name: "reason", entry: Entry::RespCfg, cfg: 0, pre: b"HTTP/1.1 200 ", post: b"\r\n\r\n", fill: b'r' },
     Field { name: "chunk-ext", entry: Entry::Chunk, cfg: 0, pre: b"1;", post: b"\r\n", fill: b'e' },
     Field { name: "chunk-digits", entry: Entry::Chunk, cfg: 0, pre: b"", post: b"\r\n", fill: b'1' },
+    // the rest of a line that is already being dropped (ignore-invalid-headers): NUL and lone CR
+    // must still be seen, everything else is skipped up to the line end
+    Field { name: "dropped-line", entry: Entry::RespCfg, cfg: C_IGNORE_RESP, pre: b"HTTP/1.1 200 OK\r\nA: 1\r\nbad\x01", post: b"\r\nB: 2\r\n\r\n", fill: b'x' },
+    Field { name: "dropped-line", entry: Entry::ReqCfg, cfg: C_IGNORE_REQ, pre: b"GET / HTTP/1.1\r\n: ", post: b"\nB: 2\n\n", fill: b'y' },
 ];
 
 fn lane_phase_inputs(f: &Field, lmax: usize, g: &mut dyn FnMut(&[u8])) {
@@ -815,9 +980,9 @@ pub fn add_field_prefix_sweep(p: &mut Plan, q: bool, backends: &[Backend]) {
                 }));
             }
         }
-        p.phases.push(Phase { label: format!("S2b: every prefix of 9 single-field messages, L≤{} × position(step {}) × 6 bytes", lmax, step), backend: b, tasks });
+        p.phases.push(Phase { label: format!("S2b: every prefix of 11 single-field messages, L≤{} × position(step {}) × 6 bytes", lmax, step), backend: b, tasks });
     }
-    p.bounds.push(format!("S2b prefixes: 9 fields × run length 0..={} × offending position (step {}) × bytes {{filler, 7F, 00, SP, HTAB, CR}} × every split point inside and after the field, backends {:?}", lmax, step, backends.iter().map(|b| b.name()).collect::<Vec<_>>()));
+    p.bounds.push(format!("S2b prefixes: 11 fields × run length 0..={} × offending position (step {}) × bytes {{filler, 7F, 00, SP, HTAB, CR}} × every split point inside and after the field, backends {:?}", lmax, step, backends.iter().map(|b| b.name()).collect::<Vec<_>>()));
 }
 
 
@@ -982,7 +1147,7 @@ pub fn add_lane_phase(p: &mut Plan, q: bool, backends: &[Backend]) {
     for &b in backends {
         p.phases.push(Phase { label: format!("S2b: lane-phase sweep, {} fields × L≤{} × position × 256 values", FIELDS.len(), lmax), backend: b, tasks: lane_phase_tasks(&FIELDS, lmax, b) });
     }
-    p.bounds.push(format!("S2b: fields method/target/header-name(2)/header-value(2)/reason/chunk-ext/chunk-digits, run length 0..={}, every position, all 256 values, backends {:?}", lmax, backends.iter().map(|b| b.name()).collect::<Vec<_>>()));
+    p.bounds.push(format!("S2b: fields method/target/header-name(2)/header-value(2)/reason/chunk-ext/chunk-digits/dropped-line(2), run length 0..={}, every position, all 256 values, backends {:?}", lmax, backends.iter().map(|b| b.name()).collect::<Vec<_>>()));
 }
 
 pub fn add_field_sweeps(p: &mut Plan, q: bool, backends: &[Backend], names: &[&str]) {
@@ -1157,6 +1322,31 @@ fn corpus_pieces(q: bool) -> Vec<Corpus> {
             v.push(Arc::new(move |g: &mut dyn FnMut(&Lane, &[u8])| {
                 let lane = Lane::new(entry_for(t.kind), cfg, 8);
                 for_each_mutant(&t.bytes, &mut |i| g(&lane, i));
+            }));
+        }
+    }
+    // long fields (beyond any vector stride), three remainders, boundary bytes at every position
+    for f in FIELDS.iter().filter(|f| f.name != "chunk-digits") {
+        for post in long_posts(f) {
+            let f = *f;
+            v.push(Arc::new(move |g: &mut dyn FnMut(&Lane, &[u8])| {
+                let lane = Lane::new(f.entry, f.cfg, 8);
+                let llong = if q { 300 } else { 520 };
+                let mut buf = Vec::new();
+                for l in (71..=llong).step_by(if q { 3 } else { 1 }) {
+                    buf.clear();
+                    buf.extend_from_slice(f.pre);
+                    buf.extend(std::iter::repeat(f.fill).take(l));
+                    buf.extend_from_slice(&post);
+                    g(&lane, &buf);
+                    for pos in 0..l {
+                        for &v in LONG_VALS.iter() {
+                            buf[f.pre.len() + pos] = v;
+                            g(&lane, &buf);
+                        }
+                        buf[f.pre.len() + pos] = f.fill;
+                    }
+                }
             }));
         }
     }
